@@ -267,6 +267,47 @@ def class_assign(cls, name):
     raise Unsupported('class attribute ' + name)
 
 
+def decision_tree(stmts, target, leaves, some_var=None):
+    """Coq term for the value assigned to `target` by a tree of if-statements whose tests are
+    `self.offset is None` (match on the option) or `isinstance(self.rbf, str)` (the bool)."""
+    found = None
+    for st in stmts:
+        if isinstance(st, ast.Assign) and len(st.targets) == 1 and ast.unparse(st.targets[0]) == target:
+            v = ast.unparse(st.value)
+            if v not in leaves:
+                raise Unsupported(f'{target} assigned from {v}')
+            leaf = leaves[v]
+            if leaf == 'SOME':
+                if some_var is None:
+                    raise Unsupported(f'{target} = self.offset outside the branch where it is not None')
+                leaf = some_var
+            if found is not None:
+                raise Unsupported(f'{target} assigned twice on one path')
+            found = leaf
+        elif isinstance(st, ast.If) and any(
+                isinstance(n, ast.Assign) and ast.unparse(n.targets[0]) == target for n in ast.walk(st)):
+            if found is not None:
+                raise Unsupported(f'{target} assigned twice on one path')
+            test = ast.unparse(st.test)
+            if test == 'self.offset is None':
+                a = decision_tree(st.body, target, leaves, None)
+                b = decision_tree(st.orelse, target, leaves, 'o')
+                found = f'(match offset with None => {a} | Some o => {b} end)'
+            elif test == 'self.offset is not None':
+                a = decision_tree(st.body, target, leaves, 'o')
+                b = decision_tree(st.orelse, target, leaves, None)
+                found = f'(match offset with Some o => {a} | None => {b} end)'
+            elif test == 'isinstance(self.rbf, str)':
+                a = decision_tree(st.body, target, leaves, some_var)
+                b = decision_tree(st.orelse, target, leaves, some_var)
+                found = f'(if rbf_is_name then {a} else {b})'
+            else:
+                raise Unsupported(f'test `{test}` in the resolution of {target}')
+    if found is None:
+        raise Unsupported(f'a path does not assign {target}')
+    return found
+
+
 def rvs_call(fn, target):
     """the keyword arguments of the single `<dist>.rvs(...)` call assigned to / building `target`"""
     hits = []
@@ -448,14 +489,16 @@ def main():
     r = it.run(fn.body)
     out += ['Definition gen_rbf_lift_row (n_states_in_ : nat) (shape offset_ : R) (centers_ : list (list R))',
             '  (rbf_ : R -> R) (X : list R) : list R :=', '  ' + it.term(r) + '.', '']
-    # offset default rule in _fit_one_ep is checked structurally
+    # offset / radial-function resolution in _fit_one_ep: the if-tree that assigns self.offset_ / self.rbf_
     fit = find_fn(rb.body, '_fit_one_ep')
-    src = ast.unparse(fit)
-    need = ["self.offset_ = self._offset_lookup[self.rbf]", "self.offset_ = 0", "self.offset_ = self.offset",
-            "self.rbf_ = self._rbf_lookup[self.rbf]", "self.rbf_ = self.rbf"]
-    for s in need:
-        if s not in src:
-            raise Unsupported('RbfLiftingFn._fit_one_ep: expected statement missing: ' + s)
+    leaves_off = {'self._offset_lookup[self.rbf]': 'lookup', '0': '0', 'self.offset': 'SOME'}
+    t = decision_tree(fit.body, 'self.offset_', leaves_off)
+    out += ['Definition gen_rbf_resolve_offset (offset : option R) (rbf_is_name : bool) (lookup : R) : R :=',
+            '  ' + t + '.', '']
+    leaves_rbf = {'self._rbf_lookup[self.rbf]': 'lookup', 'self.rbf': 'given'}
+    t = decision_tree(fit.body, 'self.rbf_', leaves_rbf)
+    out += ['Definition gen_rbf_resolve_rbf (rbf_is_name : bool) (lookup given : R -> R) : R -> R :=',
+            '  ' + t + '.', '']
 
     # ---- centers._feature_range on one column
     fn = find_fn(ce.body, '_feature_range')
